@@ -379,8 +379,10 @@ func runSeq(sq Seq, out *bytes.Buffer) {
 		fmt.Fprintf(out, "OP\t%d\t%d\t%s\t%s\tL=%s\tB=%s\tN=%d,%d\t=>\t%s\n", sq.ID, idx, op.Name, args, lays, bats, g.n, g.rerrs, res)
 		stop := g.exceeded
 		g.mu.Unlock()
-		if stop {
-			break // the oracle has failed on this call; the client's state is of no further interest
+		if stop || strings.HasPrefix(res, "err") || strings.HasPrefix(res, "panic") {
+			// no call of these sequences may fail: the oracle has failed on this call, and the
+			// client's state afterwards (stores marked unreachable, ...) is of no further interest
+			break
 		}
 	}
 }
@@ -799,6 +801,14 @@ func main() {
 		fmt.Fprintln(os.Stderr, "failpoint:", err)
 		os.Exit(2)
 	}
+	if len(os.Args) >= 2 && os.Args[1] == "directed" {
+		// print the directed sequences (the check replays them one by one to attribute a process crash)
+		for _, sq := range directedSeqs(0) {
+			js, _ := json.Marshal(sq)
+			fmt.Println(string(js))
+		}
+		return
+	}
 	if len(os.Args) >= 3 && os.Args[1] == "replay" {
 		// file with one JSON sequence spec per line
 		f, err := os.Open(os.Args[2])
@@ -828,12 +838,13 @@ func main() {
 	}
 	nseq, nops := 1500, 14
 	if os.Getenv("VERIF_TIER") == "thorough" {
-		nseq, nops = 12000, 24
+		nseq, nops = 6000, 24 // per chunk; the check runs several chunks (VERIF_CHUNK)
 	}
 	if v := os.Getenv("VERIF_NSEQ"); v != "" {
 		nseq, _ = strconv.Atoi(v)
 	}
-	r := rand.New(rand.NewSource(seed*7919 + 11))
+	chunk, _ := strconv.ParseInt(os.Getenv("VERIF_CHUNK"), 10, 64)
+	r := rand.New(rand.NewSource(seed*7919 + 11 + chunk*104729))
 	seqs := make([]Seq, nseq)
 	for i := range seqs {
 		seqs[i] = genSeq(i, r, nops/2+r.Intn(nops))
